@@ -92,6 +92,29 @@ pub fn run() {
 			eval_case("incremental", o_incremental, &bytes, &p, || format!("{} + unknown event kind {} at boundary {} sched={:?}", label, k, at, s), local);
 		});
 	}
+	// unknown events cut into Message Splitter blocks: the byte accounting goes by the blocks read, not by the
+	// size of the message they add up to
+	{
+		let wjobs = crate::checks::c08::wrapped_unknown_docs();
+		par_each(wjobs.into_iter().enumerate(), |(i, (bytes, label)), local| {
+			let bytes = Arc::new(bytes);
+			let s = [Sched::Full, Sched::Chunk(7), Sched::Chunk(600)][i % 3].clone();
+			let mut p = P { class: "split-unknown-event", ..Default::default() };
+			set_sched(&mut p, &s);
+			p.n[0] = aspects;
+			eval_case("incremental", o_incremental, &bytes, &p, || format!("{} sched={:?}", label, s), local);
+		});
+	}
+	// a complete stream whose header declares raw length 0: the one-shot reader walks to Game End like the
+	// event-by-event API and then reads the metadata (oracle of C16, which compares with the bytes)
+	{
+		let zjobs: Vec<_> = bases().into_iter().filter(|(a, _)| a.ends == 1).collect();
+		par_each(zjobs.into_iter(), |(a, _), local| {
+			let bytes = Arc::new(record(&a).doc.assemble());
+			let p = P { class: "raw-length-0", ..Default::default() };
+			eval_case("metadata", crate::checks::c16::o_metadata, &bytes, &p, || format!("{} (also with a declared raw length of 0)", a.describe()), local);
+		});
+	}
 	let mut jobs = vec![];
 	for (a, _) in bases() {
 		let bytes = Arc::new(record(&a).doc.assemble());
